@@ -1,7 +1,7 @@
 """Property id -> check function."""
 import json
 
-from . import conn_checks, listen_checks
+from . import client_checks, conn_checks, listen_checks
 from .common import *
 
 CHECKS = {
@@ -11,6 +11,7 @@ CHECKS = {
     "C04": conn_checks.check_C04,
     "C05": conn_checks.check_C05,
     "C06": conn_checks.check_C06,
+    "C07": client_checks.check_C07,
     "C13": listen_checks.check_C13,
     "C14": listen_checks.check_C14,
     "C15": listen_checks.check_C15,
